@@ -120,7 +120,7 @@ def main():
         dst = VERIF / "seeded" / a.pid / a.keep
         dst.mkdir(parents=True, exist_ok=True)
         for f in ("patch.diff", "demo.py", "meta.json"):
-            if (cdir / f).exists():
+            if (cdir / f).exists() and (cdir / f).resolve() != (dst / f).resolve():
                 shutil.copy(cdir / f, dst / f)
         meta = {}
         if (dst / "meta.json").exists():
